@@ -16,8 +16,8 @@ RULE = ("synthetic NIfTI volumes (uint8/uint16/uint32/float32, sizes 20..150 per
         "arise, isotropic and anisotropic voxel sizes, few-label / smooth / random values) converted (A) by "
         "volume-to-precomputed-pyramid and (B) by the documented sequence volume-to-precomputed "
         "--generate-info; generate-scales-info; volume-to-precomputed; compute-scales with the same options "
-        "(encoding raw / compressed_segmentation / jpeg, type, downscaling method average/majority/stride, "
-        "--flat, --no-gzip, --input-min/max); infos compared as JSON values, every chunk of every scale "
+        "(encoding raw / compressed_segmentation / jpeg, type, downscaling method auto/average/majority/stride, "
+        "--outside-value, --flat, --no-gzip, --compresslevel, --input-min/max); infos compared as JSON values, every chunk of every scale "
         "decoded by a fresh accessor and compared between the two runs; then steps of B are repeated "
         "(volume-to-precomputed, compute-scales, both) and the decoded dataset compared again; convert-chunks "
         "--copy-info of B run twice; scale-stats must not modify the dataset; sharded variants of B (with "
@@ -144,28 +144,34 @@ def run(ctx):
             if it == 0:
                 enc = "compressed_segmentation"       # a non-default encoding on a multi-scale volume every run
             ty = rng.choice([None, None, "image", "segmentation"])
-            method = rng.choice(["average", "majority", "stride"])
+            method = rng.choice(["average", "average", "majority", "stride", "auto"])
+            # every option the two programs share is drawn: downscaling (method, outside value), storage
+            down = ["--downscaling-method", method]
+            if rng.random() < 0.45:
+                down += ["--outside-value", str(rng.choice([0, 7, 255]))]
             store = []
             if rng.random() < 0.5:
                 store.append("--flat")
             if rng.random() < 0.5:
                 store.append("--no-gzip")
+            elif rng.random() < 0.3:
+                store += ["--compresslevel", str(rng.choice([1, 6]))]
             inp = []
             if dt != "float32" and enc in (None, "raw") and rng.random() < 0.25:
                 inp = ["--input-min", "0", "--input-max", str(rng.choice([100, 255, 1000]))]
             info_opts = (["--encoding", enc] if enc else []) + (["--type", ty] if ty else [])
             sub = rng.random() < 0.2
             desc = {"volume": {"dtype": dt, "shape": list(a.shape), "voxel_size": vox, "values": mode},
-                    "encoding": enc, "type": ty, "downscaling": method, "storage": store, "input": inp,
+                    "encoding": enc, "type": ty, "downscaling": down[1:], "storage": store, "input": inp,
                     "subprocess": sub}
             A, B = os.path.join(tmp, "A"), os.path.join(tmp, "B")
             os.makedirs(B)
             rcA, noteA = run_cmd("volume_to_precomputed_pyramid",
-                                 [vol, A, "--downscaling-method", method] + info_opts + store + inp, sub)
+                                 [vol, A] + down + info_opts + store + inp, sub)
             seq = [("volume_to_precomputed", ["--generate-info", vol, B] + inp),
                    ("generate_scales_info", [os.path.join(B, "info_fullres.json"), B] + info_opts),
                    ("volume_to_precomputed", [vol, B] + store + inp),
-                   ("compute_scales", [B, "--downscaling-method", method] + store)]
+                   ("compute_scales", [B] + down + store)]
             rcB, noteB, failed_step = 0, "", None
             for name, argv in seq:
                 rcB, noteB = run_cmd(name, argv, sub)
